@@ -1,6 +1,6 @@
 (* Props/C16.v -- the property theorems of C16, and nothing else.  Each is closed by [exact] of a
    lemma proved in C16/, its statement is pinned by [Check], and [Print Assumptions] follows. *)
-From C16 Require Import Casm Vm Roundtrip.
+From C16 Require Import Casm Vm Roundtrip Denote Step.
 
 (* Every instruction the toolchain can assemble (every operand shape, register, offsets in the
    full i16 range, arbitrary immediate, with or without ap++) encodes to words that cairo-vm's
@@ -27,6 +27,47 @@ Theorem C16_qm31_rejected : forall a b ia r,
   decode (word0 r) = None.
 Proof. exact qm31_rejected. Qed.
 
+(* One step of the (modelled) VM on the decoded flags does exactly what the CASM instruction denotes
+   when read directly off its syntax ([denotes]: the assertion holds in the memory after the step,
+   the jump / call / ret / ap update is the one written), from ANY machine state: unknown cells
+   (deduction), relocatable operands, every operand shape.  [m'] is any write-once extension of
+   [m] containing the cells the VM deduced.  Stone opcode extension only (Blake2s / QM31 steps are
+   not modelled).  [finv] is the field inverse the VM uses to deduce an operand of a product; its
+   defining equation is a visible premise (it needs the primality of P, which is not proved here). *)
+Theorem C16_step_sound : forall finv,
+  (forall z z0, 0 <= z < P -> 0 <= z0 < P -> z0 <> 0 ->
+     fmul (fmul z (finv z0)) z0 = z /\ fmul z0 (fmul z (finv z0)) = z) ->
+  forall i r m s sr m',
+  wf_instr i -> stone i -> assemble i = Some r ->
+  canonical m -> code_at m s i r ->
+  vm_exec finv (strip r) m s = Some sr ->
+  extends m m' -> has_writes m' (s_writes sr) ->
+  denotes i m' s (s_next sr).
+Proof. exact step_sound. Qed.
+
+(* non-vacuity of the step theorem: `[ap + 0] = [fp + -3] + 5, ap++` from a state where the
+   destination cell is unknown: the hypotheses are met, the VM deduces the cell and writes 42 *)
+Definition ex_i : instr :=
+  {| ibody := AssertEq {| c_reg := AP; c_off := 0 |}
+                (RBin OAdd {| c_reg := FP; c_off := -3 |} (DImm 5)); inc_ap := true |}.
+Definition ex_s : state := {| pc := (0, 0); ap := 10; fp := 10 |}.
+Definition ex_m (r : repr) : memory := fun a =>
+  if (fst a =? 0) && (snd a =? 0) then Some (VInt (word0 r))
+  else if (fst a =? 0) && (snd a =? 1) then Some (VInt 5)
+  else if (fst a =? 1) && (snd a =? 7) then Some (VInt 37)
+  else None.
+Example C16_step_example :
+  wf_instr ex_i /\ stone ex_i /\ exists r, assemble ex_i = Some r /\ code_at (ex_m r) ex_s ex_i r
+  /\ vm_exec (fun _ => 0) (strip r) (ex_m r) ex_s
+     = Some {| s_next := {| pc := (0, 2); ap := 11; fp := 10 |};
+               s_writes := [((1, 10), VInt 42)] |}.
+Proof.
+  split; [cbn; unfold wf_cell, i16; cbn; lia|]. split; [exact I|].
+  eexists. split; [reflexivity|]. split.
+  - split; [reflexivity|]. cbn. eexists. split; reflexivity.
+  - vm_compute. reflexivity.
+Qed.
+
 (* non-vacuity: a concrete instruction at the corner of the offset range meets the hypotheses *)
 Example C16_example :
   let i := {| ibody := AssertEq {| c_reg := FP; c_off := -32768 |}
@@ -44,3 +85,4 @@ Qed.
 Print Assumptions C16_roundtrip.
 Print Assumptions C16_assemble_total.
 Print Assumptions C16_qm31_rejected.
+Print Assumptions C16_step_sound.
